@@ -78,6 +78,8 @@ pub fn creason_tree(r: DisconnectReason) -> Tree {
         DisconnectReason::ConnectionDenied => 4,
         DisconnectReason::DisconnectedByClient => 5,
         DisconnectReason::DisconnectedByServer => 6,
+        #[allow(unreachable_patterns)]
+        _ => 99,
     })
 }
 pub fn nerr_tree(e: &NetcodeError) -> Tree {
@@ -98,6 +100,8 @@ pub fn nerr_tree(e: &NetcodeError) -> Tree {
         NetcodeError::ClientNotConnected => l(vec![n(13u8)]),
         NetcodeError::IoError(_) => l(vec![n(14u8)]),
         NetcodeError::TokenGenerationError(_) => l(vec![n(15u8)]),
+        #[allow(unreachable_patterns)]
+        _ => l(vec![n(99u8)]),
     }
 }
 fn ok_tree(t: Tree) -> Tree {
@@ -442,6 +446,13 @@ impl NWorld {
                     Ok((a, p)) => ok_tree(l(vec![addr_tree(&a), b(&p)])),
                     Err(e) => err_tree(&e),
                 }
+            }
+            129 => {
+                let (count, base) = match (u(1), u(2)) { (Some(a), Some(bb)) => (a, bb), _ => return bad };
+                let addr = match v.get(3).and_then(parse_addr) { Some(a) => a, None => return bad };
+                let s = match self.server.as_mut() { Some(s) => s, None => return unresolved_tree() };
+                guard!(self, s.verif_fill_token_entries(count as usize, Duration::from_nanos(base), addr));
+                l(vec![])
             }
             115 => {
                 let m = match u(1) { Some(a) => a, None => return bad };
